@@ -146,7 +146,7 @@ def observe_ref(world):
     return o
 
 
-def run(sym, prog, controls, lo=0, hi=1, dt=1, fixed=None, value_range=None, start_true=(), plan=None):
+def run(sym, prog, controls, lo=0, hi=1, dt=1, fixed=None, value_range=None, start_true=(), plan=None, on_assumed=None):
     """Build prog, drive framer 'm' with the given controls (one per tick), fresh symbolic share
     values in [lo,hi] each tick (names t<k>_<share>), stamp advancing by dt (int).  Yields per tick
     (control, real_log, ref_log, real_obs, ref_obs, env).  `fixed` maps share -> concrete value;
@@ -194,6 +194,8 @@ def run(sym, prog, controls, lo=0, hi=1, dt=1, fixed=None, value_range=None, sta
         rstatus = main.runner.send(control)
         world.send(world.framers["m"], control)
         if world.assumed_away:
+            if on_assumed is not None:   # direct checks on the real side before the path is dropped
+                on_assumed(k, control, list(LOG), observe_real(house, main, prog), observe_ref(world))
             sym.assume(False)
         out.append((control, list(LOG), list(world.log), observe_real(house, main, prog), observe_ref(world), dict(env, __events__=list(world.events), __store__=dict((s, shares[s].value) for s in state))))
         stamp = stamp + dt
